@@ -3,7 +3,8 @@
 (* key-value map with immutable headers.  Everything else (handles, tables of  *)
 (* contents, write queues, sessions) must refine this.                         *)
 EXTENDS Naturals, FiniteSets, TLC
-CONSTANTS Key, Val, KeyLen, Hdr, NoHdr
+CONSTANTS Key, Val, KeyLen, Hdr, NoHdr,
+          AllowClear   \* TRUE only in the grown model with truncate(): the map may be emptied as a whole
 VARIABLES store,   \* [exists |-> BOOLEAN, hdr |-> Hdr \cup {NoHdr}, map |-> [SUBSET Key -> Val]]
           dummy
 kvvars == <<store>>
@@ -18,8 +19,12 @@ KVPut(k, v) == /\ store.exists
                /\ KeyLen[k] <= 255
                /\ store' = [store EXCEPT !.map = @ @@ (k :> v)]
 
+KVClear == /\ AllowClear /\ store.exists
+           /\ store' = [store EXCEPT !.map = <<>>]
+
 KVNext == \/ \E hd \in Hdr : KVCreate(hd)
           \/ \E k \in Key, v \in Val : KVPut(k, v)
+          \/ KVClear
 
 KVSpec == KVInit /\ [][KVNext]_kvvars
 
